@@ -222,9 +222,19 @@ def gen_jpeg(ctx, rng, nrng, n, notes):
             arr = arr.astype("uint8")
         else:
             arr = nrng.integers(0, 256, size=(C, Z, Y, X), dtype=np.uint8)
-        enc = ce.JpegChunkEncoder("uint8", C, jpeg_quality=rng.choice([1, 50, 95, 100]),
-                                  jpeg_plane=rng.choice(["xy", "xz"]))
-        raw = enc.encode(arr)
+        quality, plane = rng.choice([1, 50, 95, 100]), rng.choice(["xy", "xz"])
+        try:
+            enc = ce.JpegChunkEncoder("uint8", C, jpeg_quality=quality, jpeg_plane=plane)
+            raw = enc.encode(arr)
+        except Exception as e:      # recorded: the base comes from PIL directly then (C03 judges the encoder)
+            notes["jpeg_bases_where_encoder_failed"] = notes.get("jpeg_bases_where_encoder_failed", 0) + 1
+            notes.setdefault("jpeg_encoder_failures", []).append("%s q=%s %s" % (type(e).__name__, quality, plane))
+            import io as _io
+            img = arr.reshape(C, Z * Y, X) if plane == "xy" else arr.reshape(C, Z, Y * X)
+            img = img[0] if C == 1 else np.moveaxis(img, 0, -1)
+            bio = _io.BytesIO()
+            PIL.Image.fromarray(img).save(bio, format="jpeg", quality=min(quality, 95))
+            raw = bio.getvalue()
         req = (C, shape)
         variants = []
         if sweeps < ctx.pick(3, 40) and len(raw) < 700:
